@@ -34,6 +34,12 @@ def run(patch, props):
     if rc:
         print("patch does not apply:", out); return
     res = {}
+    # evidence files are rewritten by every run: keep the ones of the unchanged tree
+    import shutil, tempfile
+    evdir = os.path.join(os.path.dirname(os.path.abspath(__file__)), "evidence")
+    backup = tempfile.mkdtemp(prefix="evidence-backup-")
+    for f in os.listdir(evdir):
+        shutil.copy(os.path.join(evdir, f), backup)
     try:
         for p in props:
             rc, out = sh([os.path.join(os.path.dirname(os.path.abspath(__file__)), "check.py"), p, "--tier", "quick"])
@@ -44,6 +50,9 @@ def run(patch, props):
         sh("git -C /repo checkout -- .")
         # bring the regenerated Lean files back in line with the restored tree
         sh([sys.executable, "/verif/translate/t2.py"]); sh([sys.executable, "/verif/translate/t1.py"])
+        for f in os.listdir(backup):
+            shutil.copy(os.path.join(backup, f), evdir)
+        shutil.rmtree(backup)
     return res
 
 def full(prop, k, props):
